@@ -562,29 +562,22 @@ def shrink(case):
         yield {k: v for k, v in case.items() if k != "_lab"}
 
 
-LEVEL_TEXT = ("Coq proof + correspondence. ALL SIZES since round 4: inducing_iff_inseparable (Richardson-Spirtes / Verma-Pearl at path level, for every graph with directed and bidirected edges and acyclic directed layer, bows and non-ancestral graphs included: an inducing path relative to <L,S> exists iff no set of other observed nodes m-separates x, y given S) and mag_adjacency_all (the adjacency clause of dag_to_mag for all DAGs, all disjoint L,S); of the m-separation-equals-d-separation clause (Thm 4.18) the half 'd-separated given Z u S in the DAG => m-separated given Z in the MAG' is proved for all sizes (mag_independence_fwd: every m-connecting path of the MAG unfolds into an open walk of the DAG), the converse remains bounded to n<=4. Further unbounded theorems (all graphs, all L,S): inducing_exact / inducing_witness (the model's "
-              "search returns True iff an inducing path relative to <L,S> exists - simple step path, inner nodes colliders or in L, "
-              "colliders in An({x,y} u S), endpoints outside L u S - and the returned node list is one), mag_nodes (node set = V \\ (L u S)), "
-              "mag_marks (->, <-, <->, -- exactly by the four ancestry cases), node_level_exact (the search with the code's node-level "
-              "_is_collider test decides the same edge-level definition on well-formed acyclic graphs without undirected edges, bows "
-              "allowed). Bounded theorems, kernel computation over ALL DAGs on "
-              "<= 4 nodes x all disjoint (L,S) x all ordered pairs x all Z, lifted to the path-based Props msep/dsep with msep_dec_spec: "
-              "mag_adjacency_bounded_4 (adjacent iff no set of other observed nodes d-separates given Z u S) and "
-              "mag_independence_bounded_4 (m-separation given Z in the MAG iff d-separation given Z u S in the DAG). The same two clauses "
-              "for n = 5 (sampled L,S) and random n <= 6 are checked only by the extracted brute-force oracle in the tie (testing). The "
-              "implementation is tied to the model by correspondence on the cases of `rule`, incl. six non-default label families."
-              " Tie (T) for the local predicate: translator/predicates.py re-translates _is_collider with _directed_sub_graph_parents / _bidirected_sub_graph_neighbors inlined into Gen/Gen_Preds.v on every run; repo_pred_is_collider proves by complete case analysis (64 x 64 pair states) that it equals the node-level collider test ncoll / into of node_level_exact and that nok is a case distinction on it; 4520 cells are compared with the real functions on ADMG, PAG and CPDAG objects each run (replayable).")
-LEVEL_NOTE = ("Of the marginalisation theorem (Spec.mag_full_stmt) the adjacency half is proved for all sizes (mag_adjacency_all, via open walks: "
-              "Graph/Walks.open_walk_to_path, msep_sym); of the independence half (mag_independence_stmt) the direction dsep => msep for all sizes (mag_independence_fwd), the direction msep => dsep only to n = 4 "
-              "(it needs the Richardson-Spirtes rerouting argument: an observed collider of the d-connecting walk that is an ancestor of a "
-              "neighbouring observed node must be absorbed into a longer inducing walk, with closed sub-walks cut out); n = 5 in the "
-              "kernel is out of reach (about 9 CPU-hours of vm_compute). The bounded theorems are kept as independent kernel checks. Bounded theorems quantify over arbitrary edge lists E and node "
-              "lists L0,S0 through their canonical listing on nodes 0..n-1 (dag_of, L_of, S_of). The model is the repaired search "
-              "(un-mark on backtrack, ==, {A}, add_nodes_from): on the unpatched /repo the check reports the four defects as VIOLATIONs; "
-              "fix proposals fixes/C06-*.patch. Paths are edge-level (a step names its layer); that the code's node-level collider test "
-              "(_is_collider) decides the same definition on acyclic D/B graphs incl. bows is proved (node_level_exact), and fails "
-              "with a 2-cycle (node_level_needs_acyclic).")
-TECHNIQUE = "Coq proof (enumeration exactness unbounded; marginalisation clauses by vm_compute for n<=4) + extracted-model correspondence"
+LEVEL_TEXT = ("Coq proof + correspondence. ALL clauses of the property are proved for ALL sizes: mag_full (= Spec.mag_full_stmt): for every DAG and "
+              "disjoint L, S the model MAG has x, y adjacent iff no set of other observed nodes d-separates them given S (mag_adjacency_all) and "
+              "m-separation given Z in the MAG iff d-separation given Z u S in the DAG (mag_independence_all = mag_independence_fwd + "
+              "mag_independence_bwd, Richardson-Spirtes Thm 4.18 both directions, at walk level via Graph/Walks.open_walk_to_path; the model MAG "
+              "is proved ancestral); inducing_iff_inseparable (Verma-Pearl / Richardson-Spirtes for every D/B graph with acyclic directed layer, "
+              "bows and non-ancestral graphs included); inducing_exact / inducing_witness (the model's search returns True iff an inducing path "
+              "relative to <L,S> exists, and the returned node list is one); node_level_exact (the code's node-level _is_collider test decides "
+              "the same edge-level definition on acyclic D/B graphs); mag_nodes, mag_marks. The bounded theorems (all DAGs on <= 4 nodes, "
+              "kernel computation) are kept as independent checks. The implementation is tied to the model by correspondence on the cases "
+              "of `rule`, incl. label families, same-object repeats, boundary, size, nested-label, dense and deep streams.")
+LEVEL_NOTE = ("Nothing of the property text remains bounded. The theorems are about the model (dag_to_mag_model / inducing_model, the repaired "
+              "algorithm); the implementation is tied to it by the differential correspondence only. Hypotheses of mag_full: wf DAG (only the "
+              "directed layer non-empty, acyclic), L and S disjoint subsets of the nodes; x <> y observed, Z a set of other observed nodes. "
+              "Paths are edge-level (a step names its layer); that the code's node-level collider test decides the same definition is "
+              "node_level_exact (fails with a 2-cycle: node_level_needs_acyclic).")
+TECHNIQUE = "Coq proof (all clauses unbounded: enumeration exactness, Richardson-Spirtes marginalisation theorem at walk level; n<=4 kernel computations kept as cross-checks) + extracted-model correspondence"
 
 
 # tie (T) for the local predicates (translator/predicates.py -> Gen/Gen_Preds.v -> Tie/Preds_Cxx.v): pre_build, extra, replay of cells
